@@ -76,6 +76,7 @@ func inboxHead(n *simnode.Node, c types.Address) *nom.AccountBlock {
 }
 
 func runC09(r *simrt.Run) {
+	r.WatchLocks() // a lock of the node that is never released is a violation, not a hang
 	t := r.T
 	mode := nomsim.SporkMode(t.Choose(3))
 	w := nomsim.NewWorld(r, nomsim.MockGenesis(mode))
